@@ -116,6 +116,12 @@ func (w *World) applyEVMTx(tx *ctypes.Trx, raw []byte, res TxResult, out *TxOutc
 		w.fail("C17", "tx %x fails (%s), the reference EVM succeeds (gas used %d)", hash[:6], trunc(strings.ReplaceAll(res.Log, "\n", " "), 160), ref.GasUsed)
 		// the reference already applied its effects; undo is not possible on the shared state: stop trusting this case
 		w.evmDiverged = true
+		// whatever the reason of the failure: a failed tx leaves the sender's nonce alone (the model's nonce now
+		// includes the bump the reference made)
+		if w.refOKButFailed == nil {
+			w.refOKButFailed = map[string]int{}
+		}
+		w.refOKButFailed[ak(tx.From)]++
 		return
 	}
 	out.OK = true
